@@ -147,7 +147,8 @@ CLAIMED = {
     "C13": (
         "proof (partial): for every outcome sequence, retries and timeout: <= retries identical transmissions, first reply inside "
         "its window returned unmodified at its arrival time after k full timeouts, Timeout iff retries unanswered attempts in a row "
-        "and then after exactly retries x timeout, opened = closed endpoints; tied by running the real send_udp on a virtual-time "
+        "and then after exactly retries x timeout, opened = closed endpoints — also when the caller abandons the call at any instant "
+        "(C13_cancel_no_socket_left, C13_cancel_late); tied by running the real send_udp on a virtual-time "
         "loop with a recording endpoint factory, exhaustively over all outcome sequences up to the retry budget, plus loopback "
         "sockets (IPv4 and IPv6, loggers quiet and at DEBUG, a call abandoned by its caller) with /proc/self/fd counts",
         "partial: kernel socket behaviour, ICMP timing, garbage collection and equal-deadline timer order are outside the model",
@@ -234,7 +235,8 @@ CLAIMED = {
     "C13": (
         "proof (partial): for every outcome sequence, retries and timeout: <= retries identical transmissions, first reply inside "
         "its window returned unmodified at its arrival time after k full timeouts, Timeout iff retries unanswered attempts in a row "
-        "and then after exactly retries x timeout, opened = closed endpoints; tied by running the real send_udp on a virtual-time "
+        "and then after exactly retries x timeout, opened = closed endpoints — also when the caller abandons the call at any instant "
+        "(C13_cancel_no_socket_left, C13_cancel_late); tied by running the real send_udp on a virtual-time "
         "loop with a recording endpoint factory, exhaustively over all outcome sequences up to the retry budget, plus loopback "
         "sockets (IPv4 and IPv6, loggers quiet and at DEBUG, a call abandoned by its caller) with /proc/self/fd counts",
         "partial: kernel socket behaviour, ICMP timing, garbage collection and equal-deadline timer order are outside the model",
